@@ -32,40 +32,103 @@ type Solver struct {
 	timeout  int // ms
 	log      io.Writer
 	seed     int
+	lines    chan string
+	frames   [][]string // commands sent at each push level (for restart after a hard timeout)
+	Restarts int
 }
 
 func NewSolver(kind SolverKind, timeoutMs int, seed int) (*Solver, error) {
+	s := &Solver{kind: kind, timeout: timeoutMs, seed: seed}
+	s.declared = []map[string]bool{{}}
+	s.frames = [][]string{{}}
+	if err := s.start(); err != nil {
+		return nil, err
+	}
+	return s, nil
+}
+
+func (s *Solver) start() error {
 	var cmd *exec.Cmd
-	switch kind {
+	switch s.kind {
 	case Z3, Z3New:
-		cmd = exec.Command(string(kind), "-in", fmt.Sprintf("-t:%d", timeoutMs))
+		cmd = exec.Command(string(s.kind), "-in", fmt.Sprintf("-t:%d", s.timeout))
 	case CVC5:
-		cmd = exec.Command("cvc5", "--incremental", "--strings-exp", "--produce-models", "--lang=smt2", fmt.Sprintf("--tlimit-per=%d", timeoutMs))
+		cmd = exec.Command("cvc5", "--incremental", "--strings-exp", "--produce-models", "--lang=smt2", fmt.Sprintf("--tlimit-per=%d", s.timeout))
 	}
 	in, err := cmd.StdinPipe()
 	if err != nil {
-		return nil, err
+		return err
 	}
 	out, err := cmd.StdoutPipe()
 	if err != nil {
-		return nil, err
+		return err
 	}
 	cmd.Stderr = nil
 	if err := cmd.Start(); err != nil {
-		return nil, err
+		return err
 	}
-	s := &Solver{kind: kind, cmd: cmd, in: in, out: bufio.NewReaderSize(out, 1<<20), timeout: timeoutMs, seed: seed}
-	s.declared = []map[string]bool{{}}
-	if kind == CVC5 {
-		s.send("(set-logic ALL)")
+	s.cmd, s.in = cmd, in
+	s.out = bufio.NewReaderSize(out, 1<<20)
+	lines := make(chan string, 1024)
+	s.lines = lines
+	rd := s.out
+	go func() {
+		defer close(lines)
+		for {
+			line, err := rd.ReadString('\n')
+			if line != "" {
+				lines <- line
+			}
+			if err != nil {
+				return
+			}
+		}
+	}()
+	if s.kind == CVC5 {
+		s.raw("(set-logic ALL)")
 	} else {
-		s.send("(set-option :produce-models true)")
-		if seed != 0 {
-			s.send(fmt.Sprintf("(set-option :smt.random_seed %d)", seed))
-			s.send(fmt.Sprintf("(set-option :sat.random_seed %d)", seed))
+		s.raw("(set-option :produce-models true)")
+		if s.seed != 0 {
+			s.raw(fmt.Sprintf("(set-option :smt.random_seed %d)", s.seed))
+			s.raw(fmt.Sprintf("(set-option :sat.random_seed %d)", s.seed))
 		}
 	}
-	return s, nil
+	return nil
+}
+
+// restart kills a stuck solver process and rebuilds its assertion stack.
+func (s *Solver) restart() {
+	s.cmd.Process.Kill()
+	s.in.Close()
+	go s.cmd.Wait()
+	s.Restarts++
+	if err := s.start(); err != nil {
+		return
+	}
+	for i, fr := range s.frames {
+		if i > 0 {
+			s.raw("(push 1)")
+		}
+		for _, c := range fr {
+			s.raw(c)
+		}
+	}
+}
+
+// readLine waits for one line of solver output; ok=false on hard timeout or EOF.
+func (s *Solver) readLine(deadline time.Time) (string, bool) {
+	d := time.Until(deadline)
+	if d < 0 {
+		d = 0
+	}
+	t := time.NewTimer(d)
+	defer t.Stop()
+	select {
+	case l, ok := <-s.lines:
+		return l, ok
+	case <-t.C:
+		return "", false
+	}
 }
 
 func (s *Solver) Close() {
@@ -79,7 +142,7 @@ func (s *Solver) Close() {
 	}
 }
 
-func (s *Solver) send(line string) {
+func (s *Solver) raw(line string) {
 	if s.log != nil {
 		fmt.Fprintln(s.log, line)
 	}
@@ -87,13 +150,21 @@ func (s *Solver) send(line string) {
 	io.WriteString(s.in, "\n")
 }
 
+// send transmits a command that changes the assertion stack (recorded for restarts).
+func (s *Solver) send(line string) {
+	s.frames[len(s.frames)-1] = append(s.frames[len(s.frames)-1], line)
+	s.raw(line)
+}
+
 func (s *Solver) Push() {
-	s.send("(push 1)")
+	s.raw("(push 1)")
 	s.declared = append(s.declared, map[string]bool{})
+	s.frames = append(s.frames, nil)
 }
 func (s *Solver) Pop() {
-	s.send("(pop 1)")
+	s.raw("(pop 1)")
 	s.declared = s.declared[:len(s.declared)-1]
+	s.frames = s.frames[:len(s.frames)-1]
 }
 func (s *Solver) Depth() int { return len(s.declared) - 1 }
 
@@ -129,17 +200,19 @@ func (s *Solver) Assert(t *Term) {
 func (s *Solver) Check() string {
 	t0 := time.Now()
 	marker := fmt.Sprintf("m%d", s.Queries)
-	s.send("(check-sat)")
-	s.send("(echo \"" + marker + "\")")
+	s.raw("(check-sat)")
+	s.raw("(echo \"" + marker + "\")")
 	s.Queries++
 	res := "unknown"
 	sawErr := false
+	deadline := t0.Add(time.Duration(s.timeout)*time.Millisecond + 3*time.Second)
 	for {
-		line, err := s.out.ReadString('\n')
-		if err != nil {
-			res = "unknown"
-			sawErr = true
-			break
+		line, ok := s.readLine(deadline)
+		if !ok {
+			lastSolverError = "hard timeout: solver process restarted"
+			s.restart()
+			s.Time += time.Since(t0)
+			return "unknown"
 		}
 		line = strings.TrimSpace(line)
 		if line == marker || line == "\""+marker+"\"" {
@@ -148,7 +221,7 @@ func (s *Solver) Check() string {
 		switch {
 		case line == "sat", line == "unsat", line == "unknown":
 			res = line
-		case strings.Contains(line, "(error") || strings.HasPrefix(line, "(error"):
+		case strings.Contains(line, "(error"):
 			sawErr = true
 			if s.log != nil {
 				fmt.Fprintln(s.log, "; ERR", line)
@@ -201,12 +274,13 @@ func (s *Solver) GetValues(ts []*Term) map[string]*Term {
 		}
 		b.WriteString("))")
 		marker := fmt.Sprintf("g%d_%d", s.Queries, i)
-		s.send(b.String())
-		s.send("(echo \"" + marker + "\")")
+		s.raw(b.String())
+		s.raw("(echo \"" + marker + "\")")
 		var buf strings.Builder
+		deadline := time.Now().Add(20 * time.Second)
 		for {
-			line, err := s.out.ReadString('\n')
-			if err != nil {
+			line, ok := s.readLine(deadline)
+			if !ok {
 				break
 			}
 			tl := strings.TrimSpace(line)
